@@ -13,7 +13,7 @@ m.gen_coqproject()
 PY
 cd coq
 coq_makefile -f _CoqProject -o Makefile
-timeout 3000 make -j16
+timeout 3000 make -k -j16 || echo "WARNING: some Coq files failed to build; each check rebuilds and gates its own targets"
 cd ..
 export GOFLAGS=-mod=mod GOPROXY=off GOSUMDB=off GOTOOLCHAIN=local
 python3 - <<'PY'
